@@ -419,6 +419,8 @@ impl TokenSink for PolicySink {
 pub enum Pipeline {
     /// Tokenizer<Rec<PolicySink>>
     Tok { policy: u64, initial_state: Option<String>, last_start_tag: Option<String> },
+    /// html5ever::driver with the repository's own RcDom as sink, then serialize and drop (totality only)
+    RcDom { context: Option<(String, String)>, ctx_scripting: bool },
     /// Tokenizer<Rec<TreeBuilder<H, ModelSink>>>
     Tree {
         context: Option<(String, String)>,
@@ -445,6 +447,10 @@ impl HtmlCase {
         let pipeline = match &self.pipeline {
             Pipeline::Tok { policy, initial_state, last_start_tag } => json!({
                 "kind": "tok", "policy": policy.to_string(), "initial_state": initial_state, "last_start_tag": last_start_tag }),
+            Pipeline::RcDom { context, ctx_scripting } => json!({
+                "kind": "rcdom",
+                "context": context.as_ref().map(|(n, l)| json!({"ns": n, "local": l})),
+                "ctx_scripting": ctx_scripting }),
             Pipeline::Tree { context, ctx_scripting, attach_ok, allow_shadow, driver, with_form } => json!({
                 "kind": "tree",
                 "context": context.as_ref().map(|(n, l)| json!({"ns": n, "local": l})),
@@ -461,6 +467,18 @@ impl HtmlCase {
                 policy: p["policy"].as_str().and_then(|s| s.parse().ok()).unwrap_or(0),
                 initial_state: p["initial_state"].as_str().map(|s| s.to_string()),
                 last_start_tag: p["last_start_tag"].as_str().map(|s| s.to_string()),
+            }
+        } else if p["kind"].as_str() == Some("rcdom") {
+            Pipeline::RcDom {
+                context: if p["context"].is_object() {
+                    Some((
+                        p["context"]["ns"].as_str().unwrap_or("html").to_string(),
+                        p["context"]["local"].as_str().unwrap_or("div").to_string(),
+                    ))
+                } else {
+                    None
+                },
+                ctx_scripting: p["ctx_scripting"].as_bool().unwrap_or(true),
             }
         } else {
             Pipeline::Tree {
@@ -791,6 +809,37 @@ pub fn run_html(case: &HtmlCase, record_calls: bool, emulate_never_mirror: bool)
             };
             let sink = d.tok.sink;
             finish_obs(sink.recs.into_inner(), pauses, feed_results, qne, sink.eof_count.get(), sink.after_eof.get(), sink.end_calls.get(), &probe, stats, None, None)
+        },
+        Pipeline::RcDom { context, ctx_scripting } => {
+            use markup5ever_rcdom::{RcDom, SerializableHandle};
+            use tendril::stream::TendrilSink;
+            let opts = html5ever::driver::ParseOpts { tokenizer: case.opts.tok_opts(), tree_builder: case.opts.tb_opts() };
+            let mut parser = match context {
+                None => html5ever::driver::parse_document(RcDom::default(), opts),
+                Some((nsname, local)) => {
+                    let name = QualName::new(None, ns_from(nsname), LocalName::from(&**local));
+                    html5ever::driver::parse_fragment(RcDom::default(), opts, name, vec![], *ctx_scripting)
+                },
+            };
+            let (chunks, _keep) = make_chunks(&case.input, &case.schedule);
+            let mut stats = RunStats::default();
+            for ch in chunks {
+                stats.chunks += 1;
+                stats.events += 1;
+                parser.process(ch);
+            }
+            let dom = parser.finish();
+            // visiting every node once in document order and dropping the tree must not recurse
+            let mut out: Vec<u8> = Vec::new();
+            let sh: SerializableHandle = dom.document.clone().into();
+            let _ = html5ever::serialize::serialize(&mut out, &sh, Default::default());
+            let dg = fnv1a(&out);
+            drop(sh);
+            drop(dom);
+            let mut obs = finish_obs(vec![], vec![], vec![], None, 1, 0, 1, &probe, stats, None, None);
+            obs.digest = dg;
+            obs.is_driver = true;
+            obs
         },
         Pipeline::Tree { context, ctx_scripting, attach_ok, allow_shadow, driver, with_form } => {
             let policy = SinkPolicy {
